@@ -244,6 +244,9 @@ func raceC17(seed int64, workers, rounds int) raceReport {
 						if err != nil && (rerr == nil || s != "") {
 							bad(fmt.Sprintf("unknown decoration %q rendered anyway", name))
 						}
+						if name == "race-never-registered" && err == nil {
+							bad("setting a never-registered decoration name reported no error")
+						}
 					}
 				}
 			}(g)
